@@ -306,6 +306,16 @@ func deviations(p int, thorough bool) []deviation {
 		d.SwKind = SwList
 		d.Sw = []CompDesc{{MV: bp(fill(32, 1)), SID: bp(fill(32, 2))}, {Nil: true}}
 	})
+	add("sw", "nil-then-valid", func(d *ClaimsDesc) {
+		d.NoSw = nil
+		d.SwKind = SwList
+		d.Sw = []CompDesc{{Nil: true}, {MV: bp(fill(32, 1)), SID: bp(fill(32, 2))}}
+	})
+	add("sw", "nil-in-the-middle", func(d *ClaimsDesc) {
+		d.NoSw = nil
+		d.SwKind = SwList
+		d.Sw = []CompDesc{{MV: bp(fill(32, 1)), SID: bp(fill(32, 2))}, {Nil: true}, {MV: bp(fill(48, 3)), SID: bp(fill(64, 4)), Ver: bp([]byte("2"))}}
+	})
 	add("sw", "no-mval", func(d *ClaimsDesc) { d.NoSw = nil; d.SwKind = SwList; d.Sw = []CompDesc{{SID: bp(fill(32, 2))}} })
 	add("sw", "no-signer", func(d *ClaimsDesc) { d.NoSw = nil; d.SwKind = SwList; d.Sw = []CompDesc{{MV: bp(fill(32, 2))}} })
 	add("sw", "all-absent", func(d *ClaimsDesc) { d.NoSw = nil; d.SwKind = SwList; d.Sw = []CompDesc{{}} })
